@@ -20,8 +20,12 @@ pub fn gen(seed: u64, _idx: u64, tier: Tier) -> Scenario {
     let n = match tier { Tier::Quick => r.range(6, 40), Tier::Thorough => r.range(6, 60) };
     let multi_key = r.chance(1, 2);
     let with_close = r.chance(1, 3);
+    // transient outcomes of the server's reads / writes on a client's socket (must not lose, duplicate or misdeliver anything)
+    let syscall_faults = r.chance(1, 3);
+    sc.knobs.insert("syscall_faults".into(), syscall_faults as i64);
     for _ in 0..n {
         let c = r.below(nc as u64) as usize;
+        if syscall_faults && r.chance(1, 5) { sc.steps.push(transient_fault(&mut r, nc)); }
         match r.weighted(&[22, 22, 8, 6, 4, 4, 12, 8, 3, 2, 9]) {
             0 => { // block
                 if blocked[c] { continue; }
@@ -159,6 +163,7 @@ pub fn exec(sc: &Scenario) -> Outcome {
     let mut h = H::new(sc);
     if let Err(e) = h.boot(&sc.cfg, "a") { return Outcome { verdict: "harness".into(), note: e, ..Default::default() }; }
     let mut m = Multi::new(h, "C13");
+    m.strict_stall = sc.knob("syscall_faults", 0) != 0;
     let mut closed: BTreeMap<usize, bool> = BTreeMap::new();
     // FIFO bookkeeping: order in which clients blocked per key, checked when they are served
     for (i, st) in sc.steps.iter().enumerate() {
@@ -172,6 +177,7 @@ pub fn exec(sc: &Scenario) -> Outcome {
                 if !waiting { m.send(*c, &args_of(a)); }
             }
             Step::Turns { n } => m.turns(*n),
+            Step::Arm { fop, conn: Some(c), nth, action, .. } => m.arm(*c, *fop, *nth, *action),
             Step::Adv { ns } => { m.h.sim.advance(*ns); }
             Step::RealStep { ns } => { m.h.sim.step_real(*ns); }
             Step::Close { c, .. } => { if m.cl.get(c).map_or(false, |x| x.blocked.is_some()) { m.h.count("probe_blocked_client_disconnected", 1); } m.turns(2); closed.insert(*c, true); m.close(*c); m.turns(2); }
@@ -186,7 +192,7 @@ pub fn exec(sc: &Scenario) -> Outcome {
 pub static DEF: CheckDef = CheckDef {
     id: "C13", level: "exploration", gen, exec,
     nontrivial: |o| o.counters.get("blocked_registered").copied().unwrap_or(0) >= 1 && o.counters.get("quiescent_checks").copied().unwrap_or(0) >= 1,
-    rule: "one run = 2-5 clients over 1-3 list keys: BLPOP/BRPOP on 1-3 keys with timeout 0 / 0.05..5 s, LPUSH/RPUSH of 1-3 unique elements, LPOP/RPOP, pipelined push+pop in one turn, pushes from MULTI/EXEC and from scripts, DEL, blocked clients disconnecting; requests of several clients are delivered before the same loop turn (the server's service order decides who wins), the virtual clock is moved to just before / at / after each timeout deadline; the sequential model follows the server's actual execution order, a served element must be the element at the proper end of the proper list at that moment and go to the earliest-blocked live waiter of that key (FIFO), nil never before the deadline and never for timeout 0; at quiescent points (two idle loop turns): no live blocked client whose key holds an element or whose deadline has passed (promptness/stranding), no registry entry (read-only accessor) for a client that is not blocked (residue), multiset(pushed) = multiset(returned to clients) + multiset(still in lists) (conservation); non-trivial = at least one client actually blocked and one quiescent check; the realtime clock is stepped by up to +-1 h at random points (timeouts are monotonic-clock deadlines and must not move)",
+    rule: "one run = 2-5 clients over 1-3 list keys: BLPOP/BRPOP on 1-3 keys with timeout 0 / 0.05..5 s, LPUSH/RPUSH of 1-3 unique elements, LPOP/RPOP, pipelined push+pop in one turn, pushes from MULTI/EXEC and from scripts, DEL, blocked clients disconnecting; requests of several clients are delivered before the same loop turn (the server's service order decides who wins), the virtual clock is moved to just before / at / after each timeout deadline; the sequential model follows the server's actual execution order, a served element must be the element at the proper end of the proper list at that moment and go to the earliest-blocked live waiter of that key (FIFO), nil never before the deadline and never for timeout 0; at quiescent points (two idle loop turns): no live blocked client whose key holds an element or whose deadline has passed (promptness/stranding), no registry entry (read-only accessor) for a client that is not blocked (residue), multiset(pushed) = multiset(returned to clients) + multiset(still in lists) (conservation); in a quarter to a third of the runs single reads / writes of the server on a client's socket are made to fail with EINTR, to come back empty-handed (EAGAIN, reads only) or to transfer only 1..100 bytes (fault injection at the libc boundary) - transient outcomes that must not change any reply or the dataset; non-trivial = at least one client actually blocked and one quiescent check; the realtime clock is stepped by up to +-1 h at random points (timeouts are monotonic-clock deadlines and must not move)",
     quick_budget_s: 40.0, thorough_budget_s: 900.0, quick_max_runs: 1_000_000, thorough_max_runs: 100_000_000, exhaustive: false, exhaustive_after: |_| 0,
     real: REAL_WHOLE_SERVER, stub: STUB_WHOLE_SERVER, assumptions: ASSUME_COMMON,
 };
